@@ -138,6 +138,11 @@ let rec max n0 m =
 let bool_dec b1 b2 =
   if b1 then if b2 then true else false else if b2 then false else true
 
+(** val eqb0 : bool -> bool -> bool **)
+
+let eqb0 b1 b2 =
+  if b1 then b2 else if b2 then false else true
+
 type positive =
 | XI of positive
 | XO of positive
@@ -306,9 +311,9 @@ let rec string_dec s x =
      | [] -> false
      | a0::s1 -> if (=) a a0 then string_dec s0 s1 else false)
 
-(** val eqb0 : char list -> char list -> bool **)
+(** val eqb1 : char list -> char list -> bool **)
 
-let rec eqb0 s1 s2 =
+let rec eqb1 s1 s2 =
   match s1 with
   | [] -> (match s2 with
            | [] -> true
@@ -316,7 +321,7 @@ let rec eqb0 s1 s2 =
   | c1::s1' ->
     (match s2 with
      | [] -> false
-     | c2::s2' -> if (=) c1 c2 then eqb0 s1' s2' else false)
+     | c2::s2' -> if (=) c1 c2 then eqb1 s1' s2' else false)
 
 (** val append : char list -> char list -> char list **)
 
@@ -523,7 +528,7 @@ let kind_table =
 
 let rec assoc_kind s = function
 | [] -> None
-| p :: t' -> let (n0, k) = p in if eqb0 s n0 then Some k else assoc_kind s t'
+| p :: t' -> let (n0, k) = p in if eqb1 s n0 then Some k else assoc_kind s t'
 
 (** val kind_of_string : char list -> kind **)
 
@@ -1255,7 +1260,7 @@ type config = { c_prefix : char list; c_methods : csi_method list;
 (** val find_operator : char list -> csi_method list -> csi_method option **)
 
 let find_operator name ms =
-  find (fun m -> (&&) m.m_operator (eqb0 m.m_src name)) ms
+  find (fun m -> (&&) m.m_operator (eqb1 m.m_src name)) ms
 
 (** val plus_operator : config -> csi_method option **)
 
@@ -1298,12 +1303,12 @@ let tpl_name c =
 (** val csi_get : config -> char list -> csi_method option **)
 
 let csi_get c name =
-  find (fun m -> (&&) (negb m.m_operator) (eqb0 m.m_src name)) c.c_methods
+  find (fun m -> (&&) (negb m.m_operator) (eqb1 m.m_src name)) c.c_methods
 
 (** val allows_literal_callers : config -> char list -> bool **)
 
 let allows_literal_callers c name =
-  existsb (eqb0 name) c.c_lit_callers
+  existsb (eqb1 name) c.c_lit_callers
 
 (** val var_prefix : config -> char list **)
 
@@ -1403,7 +1408,7 @@ let temp_name c n0 =
 (** val register_ident : char list -> pstate -> pstate **)
 
 let register_ident name p =
-  if existsb (eqb0 name) p.p_idents
+  if existsb (eqb1 name) p.p_idents
   then p
   else { p_ctr = p.p_ctr; p_idents = (app p.p_idents (name :: [])); p_dup =
          p.p_dup }
@@ -1535,14 +1540,14 @@ let bin_op = function
 
 let replace_expr_noexpand c e im span ik a p =
   if is_lit e
-  then ((e, (push_arg (mk_arg e) a)), p)
+  then ((e, (push_arg (expr_or_spread e ik) a)), p)
   else if is_ident e
        then (match im with
              | Replace -> replace_default c e span ik a p
              | Keep -> ((e, (push_arg (expr_or_spread e ik) a)), p))
        else (match bin_op e with
              | Some op ->
-               if eqb0 op ('+'::[])
+               if eqb1 op ('+'::[])
                then ((e, a), p)
                else replace_default c e span ik a p
              | None -> replace_default c e span ik a p)
@@ -1883,7 +1888,7 @@ let arrow_transform e = match e with
 (** val is_call_or_apply : char list -> bool **)
 
 let is_call_or_apply name =
-  (||) (eqb0 name gen_CALL) (eqb0 name gen_APPLY)
+  (||) (eqb1 name gen_CALL) (eqb1 name gen_APPLY)
 
 (** val member_parts : node -> (node * node) option **)
 
@@ -1912,7 +1917,7 @@ let member_prop_is_prototype m =
   | Some p ->
     let (_, prop) = p in
     (match ident_name_sym prop with
-     | Some s -> eqb0 s gen_PROTOTYPE
+     | Some s -> eqb1 s gen_PROTOTYPE
      | None -> false)
   | None -> false
 
@@ -1933,9 +1938,9 @@ let is_undefined_or_null e =
   match ident_sym e with
   | Some s ->
     (||)
-      (eqb0 s
+      (eqb1 s
         ('u'::('n'::('d'::('e'::('f'::('i'::('n'::('e'::('d'::[]))))))))))
-      (eqb0 s ('n'::('u'::('l'::('l'::[])))))
+      (eqb1 s ('n'::('u'::('l'::('l'::[])))))
   | None -> false
 
 (** val arg_lit_or_undef : node -> bool **)
@@ -1953,7 +1958,7 @@ let all_args_are_literal args =
 (** val invalid_args : char list -> node list -> bool **)
 
 let invalid_args name args =
-  if negb (eqb0 name ('a'::('p'::('p'::('l'::('y'::[]))))))
+  if negb (eqb1 name ('a'::('p'::('p'::('l'::('y'::[]))))))
   then false
   else (match args with
         | [] -> true
@@ -2107,7 +2112,7 @@ let replace_callee_and_args c call ident_callee call_or_apply a p =
                           in
                           let (p0, p1) =
                             replace_args c args span
-                              (eqb0 prop_name
+                              (eqb1 prop_name
                                 ('a'::('p'::('p'::('l'::('y'::[])))))) a p
                           in
                           let (args', a1) = p0 in
@@ -3661,7 +3666,7 @@ let hook_callee_name = function
                                                 | [] ->
                                                   (match l2 with
                                                    | [] ->
-                                                     if eqb0 ns
+                                                     if eqb1 ns
                                                           gen_DD_GLOBAL_NAMESPACE
                                                      then Some name
                                                      else None
@@ -3819,7 +3824,7 @@ let rec lookup_assign name = function
   (match assign_pair x with
    | Some p ->
      let (s, rhs) = p in
-     if eqb0 s name then Some rhs else lookup_assign name l'
+     if eqb1 s name then Some rhs else lookup_assign name l'
    | None -> lookup_assign name l')
 
 (** val tag_of_operation : node -> node list -> bool -> char list **)
@@ -4339,7 +4344,7 @@ let is_oc_target names e =
                                               | [] ->
                                                 (match ident_name_sym prop with
                                                  | Some name ->
-                                                   existsb (eqb0 name) names
+                                                   existsb (eqb1 name) names
                                                  | None -> false)
                                               | _ :: _ -> false)))
                                      | _ -> false)
@@ -4913,7 +4918,7 @@ let rec node_eqb_nospan a b =
 
 let rec assoc_str s = function
 | [] -> None
-| p :: rest -> let (k, v) = p in if eqb0 s k then Some v else assoc_str s rest
+| p :: rest -> let (k, v) = p in if eqb1 s k then Some v else assoc_str s rest
 
 (** val is_temp_ident : char list -> node -> char list option **)
 
@@ -5089,7 +5094,7 @@ let same_receiver vp a b =
   match is_temp_ident vp a with
   | Some x ->
     (match is_temp_ident vp b with
-     | Some y -> eqb0 x y
+     | Some y -> eqb1 x y
      | None -> false)
   | None ->
     (match is_temp_ident vp b with
@@ -5840,7 +5845,7 @@ let mk_opt base =
 let rec unguard vp raw t n0 =
   let is_t = fun x ->
     match is_temp_ident vp x with
-    | Some s -> eqb0 s t
+    | Some s -> eqb1 s t
     | None -> false
   in
   let Node (tg, cs) = n0 in
@@ -6579,7 +6584,7 @@ type wctx = { in_block : bool; excluded : bool; cls : char list }
 (** val mem_str : char list -> char list list -> bool **)
 
 let mem_str s l =
-  existsb (eqb0 s) l
+  existsb (eqb1 s) l
 
 (** val lit_sum : node -> bool **)
 
@@ -6666,9 +6671,9 @@ let undefined_or_null e =
   match ident_sym e with
   | Some s ->
     (||)
-      (eqb0 s
+      (eqb1 s
         ('u'::('n'::('d'::('e'::('f'::('i'::('n'::('e'::('d'::[]))))))))))
-      (eqb0 s ('n'::('u'::('l'::('l'::[])))))
+      (eqb1 s ('n'::('u'::('l'::('l'::[])))))
   | None -> false
 
 (** val arg_lit_like : node -> bool **)
@@ -7265,9 +7270,9 @@ let site_here c = function
                                                         []) :: []
                                                  else []
                                             else if (||)
-                                                      (eqb0 m
+                                                      (eqb1 m
                                                         ('c'::('a'::('l'::('l'::[])))))
-                                                      (eqb0 m
+                                                      (eqb1 m
                                                         ('a'::('p'::('p'::('l'::('y'::[]))))))
                                                  then let Node (t2, cs1) = obj
                                                       in
@@ -7326,7 +7331,7 @@ let site_here c = function
                                                                     then []
                                                                     else 
                                                                     if 
-                                                                    eqb0 m
+                                                                    eqb1 m
                                                                     ('a'::('p'::('p'::('l'::('y'::[])))))
                                                                     then 
                                                                     (match rest with
@@ -7600,12 +7605,12 @@ let rec sites_walk c w n0 =
   let here =
     if w.excluded
     then []
-    else if (||) w.in_block (negb (eqb0 w.cls []))
+    else if (||) w.in_block (negb (eqb1 w.cls []))
          then map (fun x ->
                 let (y, cl) = x in
                 let (k, what) = y in
                 { s_key = k; s_what = what; s_class =
-                (if eqb0 cl [] then w.cls else cl) }) (site_here c n0)
+                (if eqb1 cl [] then w.cls else cl) }) (site_here c n0)
          else []
   in
   let go = fun w' ->
@@ -8111,3 +8116,1938 @@ let missing_sites c pin pout =
   let keys = hook_keys pout in
   filter (fun s -> negb (existsb (sp_eqb s.s_key) keys))
     (required_sites c pin)
+
+(** val mem_str0 : char list -> char list list -> bool **)
+
+let mem_str0 s l =
+  existsb (eqb1 s) l
+
+(** val reserved_ident : char list -> node -> (char list * bool) option **)
+
+let reserved_ident vp n0 = match n0 with
+| Node (t, _) ->
+  (match t with
+   | K (k, lo, hi) ->
+     (match k with
+      | KIdent ->
+        (match ident_sym n0 with
+         | Some s ->
+           if prefix vp s then Some (s, (is_dummy (lo, hi))) else None
+         | None -> None)
+      | _ -> None)
+   | _ -> None)
+
+(** val let_names : char list -> node list -> char list list **)
+
+let let_names vp stmts =
+  match after_directives stmts with
+  | [] -> []
+  | s :: _ ->
+    let Node (t, cs) = s in
+    (match t with
+     | K (k, _, _) ->
+       (match k with
+        | KVarDecl ->
+          (match cs with
+           | [] -> []
+           | _ :: l0 ->
+             (match l0 with
+              | [] -> []
+              | _ :: l1 ->
+                (match l1 with
+                 | [] -> []
+                 | _ :: l2 ->
+                   (match l2 with
+                    | [] -> []
+                    | n2 :: l3 ->
+                      let Node (t0, decls) = n2 in
+                      (match t0 with
+                       | Lst ->
+                         (match l3 with
+                          | [] ->
+                            if is_injected_let vp s
+                            then flat_map (fun d ->
+                                   let Node (t1, cs0) = d in
+                                   (match t1 with
+                                    | K (k0, _, _) ->
+                                      (match k0 with
+                                       | KVarDeclarator ->
+                                         (match cs0 with
+                                          | [] -> []
+                                          | id :: _ ->
+                                            (match ident_sym id with
+                                             | Some x -> x :: []
+                                             | None -> []))
+                                       | _ -> [])
+                                    | _ -> [])) decls
+                            else []
+                          | _ :: _ -> [])
+                       | _ -> [])))))
+        | _ -> [])
+     | _ -> [])
+
+(** val has_dup : char list list -> bool **)
+
+let rec has_dup = function
+| [] -> false
+| x :: rest -> (||) (mem_str0 x rest) (has_dup rest)
+
+type hctx = { h_decl : char list list option; h_crossed : bool;
+              h_assigned : char list list; h_live : char list list }
+
+type issue = char list * char list
+
+(** val hyg : char list -> hctx -> node -> issue list **)
+
+let rec hyg vp h n0 =
+  let kids = fun h' ->
+    let rec go = function
+    | [] -> []
+    | c :: l' -> app (hyg vp h' c) (go l')
+    in go
+  in
+  (match reserved_ident vp n0 with
+   | Some p ->
+     let (name, b) = p in
+     if b
+     then app
+            (match h.h_decl with
+             | Some d ->
+               if mem_str0 name d
+               then []
+               else (('u'::('n'::('d'::('e'::('c'::('l'::('a'::('r'::('e'::('d'::[])))))))))),
+                      name) :: []
+             | None ->
+               (('u'::('n'::('d'::('e'::('c'::('l'::('a'::('r'::('e'::('d'::[])))))))))),
+                 name) :: [])
+            (if h.h_crossed
+             then (('c'::('r'::('o'::('s'::('s'::('e'::('d'::[]))))))),
+                    name) :: []
+             else [])
+     else []
+   | None ->
+     let Node (t, cs) = n0 in
+     (match t with
+      | K (k, _, _) ->
+        (match k with
+         | KBlock ->
+           (match cs with
+            | [] -> kids h cs
+            | _ :: l ->
+              (match l with
+               | [] -> kids h cs
+               | n1 :: l0 ->
+                 let Node (t0, stmts) = n1 in
+                 (match t0 with
+                  | Lst ->
+                    (match l0 with
+                     | [] ->
+                       let d = let_names vp stmts in
+                       app
+                         (if has_dup d
+                          then (('d'::('u'::('p'::('-'::('d'::('e'::('c'::('l'::[])))))))),
+                                 []) :: []
+                          else [])
+                         (kids { h_decl = (Some d); h_crossed = false;
+                           h_assigned = []; h_live = [] } stmts)
+                     | _ :: _ -> kids h cs)
+                  | _ -> kids h cs)))
+         | KParen ->
+           (match cs with
+            | [] -> kids h cs
+            | n1 :: l ->
+              let Node (t0, cs0) = n1 in
+              (match t0 with
+               | K (k0, _, _) ->
+                 (match k0 with
+                  | KSeq ->
+                    (match cs0 with
+                     | [] -> kids h cs
+                     | n2 :: l0 ->
+                       let Node (t1, es) = n2 in
+                       (match t1 with
+                        | Lst ->
+                          (match l0 with
+                           | [] ->
+                             (match l with
+                              | [] ->
+                                (match split_injected vp es with
+                                 | Some p ->
+                                   let (asg, _) = p in
+                                   (match asg with
+                                    | [] -> kids h es
+                                    | _ :: _ ->
+                                      let mine = map fst asg in
+                                      app
+                                        (if has_dup mine
+                                         then (('d'::('u'::('p'::('-'::('a'::('s'::('s'::('i'::('g'::('n'::[])))))))))),
+                                                []) :: []
+                                         else [])
+                                        (app
+                                          (if existsb (fun x ->
+                                                mem_str0 x h.h_live) mine
+                                           then (('c'::('l'::('o'::('b'::('b'::('e'::('r'::[]))))))),
+                                                  []) :: []
+                                           else [])
+                                          (let rec go l1 done0 =
+                                             match l1 with
+                                             | [] -> []
+                                             | x :: l' ->
+                                               let Node (t2, cs1) = x in
+                                               (match t2 with
+                                                | K (k1, _, _) ->
+                                                  (match k1 with
+                                                   | KAssign ->
+                                                     (match cs1 with
+                                                      | [] ->
+                                                        (match l' with
+                                                         | [] ->
+                                                           hyg vp { h_decl =
+                                                             h.h_decl;
+                                                             h_crossed =
+                                                             h.h_crossed;
+                                                             h_assigned =
+                                                             (app done0
+                                                               h.h_assigned);
+                                                             h_live =
+                                                             (app mine
+                                                               h.h_live) } x
+                                                         | _ :: _ ->
+                                                           app (hyg vp h x)
+                                                             (go l' done0))
+                                                      | _ :: l2 ->
+                                                        (match l2 with
+                                                         | [] ->
+                                                           (match l' with
+                                                            | [] ->
+                                                              hyg vp
+                                                                { h_decl =
+                                                                h.h_decl;
+                                                                h_crossed =
+                                                                h.h_crossed;
+                                                                h_assigned =
+                                                                (app done0
+                                                                  h.h_assigned);
+                                                                h_live =
+                                                                (app mine
+                                                                  h.h_live) }
+                                                                x
+                                                            | _ :: _ ->
+                                                              app
+                                                                (hyg vp h x)
+                                                                (go l' done0))
+                                                         | lhs :: l3 ->
+                                                           (match l3 with
+                                                            | [] ->
+                                                              (match l' with
+                                                               | [] ->
+                                                                 hyg vp
+                                                                   { h_decl =
+                                                                   h.h_decl;
+                                                                   h_crossed =
+                                                                   h.h_crossed;
+                                                                   h_assigned =
+                                                                   (app done0
+                                                                    h.h_assigned);
+                                                                   h_live =
+                                                                   (app mine
+                                                                    h.h_live) }
+                                                                   x
+                                                               | _ :: _ ->
+                                                                 app
+                                                                   (hyg vp h
+                                                                    x)
+                                                                   (go l'
+                                                                    done0))
+                                                            | rhs :: l4 ->
+                                                              (match l4 with
+                                                               | [] ->
+                                                                 (match l' with
+                                                                  | [] ->
+                                                                    hyg vp
+                                                                    { h_decl =
+                                                                    h.h_decl;
+                                                                    h_crossed =
+                                                                    h.h_crossed;
+                                                                    h_assigned =
+                                                                    (app
+                                                                    done0
+                                                                    h.h_assigned);
+                                                                    h_live =
+                                                                    (app mine
+                                                                    h.h_live) }
+                                                                    x
+                                                                  | _ :: _ ->
+                                                                    app
+                                                                    (hyg vp
+                                                                    { h_decl =
+                                                                    h.h_decl;
+                                                                    h_crossed =
+                                                                    h.h_crossed;
+                                                                    h_assigned =
+                                                                    (app
+                                                                    done0
+                                                                    h.h_assigned);
+                                                                    h_live =
+                                                                    (app mine
+                                                                    h.h_live) }
+                                                                    rhs)
+                                                                    (match 
+                                                                    ident_sym
+                                                                    lhs with
+                                                                    | Some t3 ->
+                                                                    app
+                                                                    (match h.h_decl with
+                                                                    | Some d ->
+                                                                    if 
+                                                                    mem_str0
+                                                                    t3 d
+                                                                    then []
+                                                                    else 
+                                                                    (('u'::('n'::('d'::('e'::('c'::('l'::('a'::('r'::('e'::('d'::[])))))))))),
+                                                                    t3) :: []
+                                                                    | None ->
+                                                                    (('u'::('n'::('d'::('e'::('c'::('l'::('a'::('r'::('e'::('d'::[])))))))))),
+                                                                    t3) :: [])
+                                                                    (app
+                                                                    (if h.h_crossed
+                                                                    then 
+                                                                    (('c'::('r'::('o'::('s'::('s'::('e'::('d'::[]))))))),
+                                                                    t3) :: []
+                                                                    else [])
+                                                                    (go l'
+                                                                    (t3 :: done0)))
+                                                                    | None ->
+                                                                    go l'
+                                                                    done0))
+                                                               | _ :: _ ->
+                                                                 (match l' with
+                                                                  | [] ->
+                                                                    hyg vp
+                                                                    { h_decl =
+                                                                    h.h_decl;
+                                                                    h_crossed =
+                                                                    h.h_crossed;
+                                                                    h_assigned =
+                                                                    (app
+                                                                    done0
+                                                                    h.h_assigned);
+                                                                    h_live =
+                                                                    (app mine
+                                                                    h.h_live) }
+                                                                    x
+                                                                  | _ :: _ ->
+                                                                    app
+                                                                    (hyg vp h
+                                                                    x)
+                                                                    (go l'
+                                                                    done0))))))
+                                                   | _ ->
+                                                     (match l' with
+                                                      | [] ->
+                                                        hyg vp { h_decl =
+                                                          h.h_decl;
+                                                          h_crossed =
+                                                          h.h_crossed;
+                                                          h_assigned =
+                                                          (app done0
+                                                            h.h_assigned);
+                                                          h_live =
+                                                          (app mine h.h_live) }
+                                                          x
+                                                      | _ :: _ ->
+                                                        app (hyg vp h x)
+                                                          (go l' done0)))
+                                                | _ ->
+                                                  (match l' with
+                                                   | [] ->
+                                                     hyg vp { h_decl =
+                                                       h.h_decl; h_crossed =
+                                                       h.h_crossed;
+                                                       h_assigned =
+                                                       (app done0
+                                                         h.h_assigned);
+                                                       h_live =
+                                                       (app mine h.h_live) } x
+                                                   | _ :: _ ->
+                                                     app (hyg vp h x)
+                                                       (go l' done0)))
+                                           in go es [])))
+                                 | None -> kids h es)
+                              | _ :: _ -> kids h cs)
+                           | _ :: _ -> kids h cs)
+                        | _ -> kids h cs))
+                  | _ -> kids h cs)
+               | _ -> kids h cs))
+         | KParam ->
+           kids { h_decl = h.h_decl; h_crossed = true; h_assigned =
+             h.h_assigned; h_live = h.h_live } cs
+         | KClassProp ->
+           (match cs with
+            | [] -> kids h cs
+            | key :: l ->
+              (match l with
+               | [] -> kids h cs
+               | value :: l0 ->
+                 (match l0 with
+                  | [] -> kids h cs
+                  | _ :: l1 ->
+                    (match l1 with
+                     | [] -> kids h cs
+                     | n1 :: _ ->
+                       let Node (t0, cs0) = n1 in
+                       (match t0 with
+                        | Bln b ->
+                          if b
+                          then kids h cs
+                          else (match cs0 with
+                                | [] ->
+                                  app (hyg vp h key)
+                                    (hyg vp { h_decl = h.h_decl; h_crossed =
+                                      true; h_assigned = h.h_assigned;
+                                      h_live = h.h_live } value)
+                                | _ :: _ -> kids h cs)
+                        | _ -> kids h cs)))))
+         | KPrivateProp ->
+           (match cs with
+            | [] -> kids h cs
+            | _ :: l ->
+              (match l with
+               | [] -> kids h cs
+               | _ :: l0 ->
+                 (match l0 with
+                  | [] -> kids h cs
+                  | value :: l1 ->
+                    (match l1 with
+                     | [] -> kids h cs
+                     | _ :: l2 ->
+                       (match l2 with
+                        | [] -> kids h cs
+                        | n1 :: _ ->
+                          let Node (t0, cs0) = n1 in
+                          (match t0 with
+                           | Bln b ->
+                             if b
+                             then kids h cs
+                             else (match cs0 with
+                                   | [] ->
+                                     hyg vp { h_decl = h.h_decl; h_crossed =
+                                       true; h_assigned = h.h_assigned;
+                                       h_live = h.h_live } value
+                                   | _ :: _ -> kids h cs)
+                           | _ -> kids h cs))))))
+         | KSetterProp ->
+           (match cs with
+            | [] -> kids h cs
+            | key :: l ->
+              (match l with
+               | [] -> kids h cs
+               | _ :: l0 ->
+                 (match l0 with
+                  | [] -> kids h cs
+                  | param :: l1 ->
+                    (match l1 with
+                     | [] -> kids h cs
+                     | body :: l2 ->
+                       (match l2 with
+                        | [] ->
+                          app (hyg vp h key)
+                            (app
+                              (hyg vp { h_decl = h.h_decl; h_crossed = true;
+                                h_assigned = h.h_assigned; h_live =
+                                h.h_live } param) (hyg vp h body))
+                        | _ :: _ -> kids h cs)))))
+         | _ -> kids h cs)
+      | _ -> kids h cs))
+
+(** val unassigned_reads :
+    char list -> char list list -> node -> issue list **)
+
+let rec unassigned_reads vp assigned n0 =
+  let kids = fun a ->
+    let rec go = function
+    | [] -> []
+    | c :: l' -> app (unassigned_reads vp a c) (go l')
+    in go
+  in
+  (match reserved_ident vp n0 with
+   | Some p ->
+     let (name, b) = p in
+     if b
+     then if mem_str0 name assigned
+          then []
+          else (('u'::('n'::('a'::('s'::('s'::('i'::('g'::('n'::('e'::('d'::[])))))))))),
+                 name) :: []
+     else []
+   | None ->
+     let Node (t, cs) = n0 in
+     (match t with
+      | K (k, _, _) ->
+        (match k with
+         | KBlock -> kids [] cs
+         | KVarDeclarator ->
+           (match cs with
+            | [] -> kids assigned cs
+            | id :: rest ->
+              (match reserved_ident vp id with
+               | Some _ -> kids assigned rest
+               | None -> kids assigned (id :: rest)))
+         | KParen ->
+           (match cs with
+            | [] -> kids assigned cs
+            | n1 :: l ->
+              let Node (t0, cs0) = n1 in
+              (match t0 with
+               | K (k0, _, _) ->
+                 (match k0 with
+                  | KSeq ->
+                    (match cs0 with
+                     | [] -> kids assigned cs
+                     | n2 :: l0 ->
+                       let Node (t1, es) = n2 in
+                       (match t1 with
+                        | Lst ->
+                          (match l0 with
+                           | [] ->
+                             (match l with
+                              | [] ->
+                                (match split_injected vp es with
+                                 | Some p ->
+                                   let (l1, _) = p in
+                                   (match l1 with
+                                    | [] -> kids assigned es
+                                    | _ :: _ ->
+                                      let rec go l2 a =
+                                        match l2 with
+                                        | [] -> []
+                                        | x :: l' ->
+                                          let Node (t2, cs1) = x in
+                                          (match t2 with
+                                           | K (k1, _, _) ->
+                                             (match k1 with
+                                              | KAssign ->
+                                                (match cs1 with
+                                                 | [] ->
+                                                   (match l' with
+                                                    | [] ->
+                                                      unassigned_reads vp a x
+                                                    | _ :: _ ->
+                                                      app
+                                                        (unassigned_reads vp
+                                                          a x) (go l' a))
+                                                 | _ :: l3 ->
+                                                   (match l3 with
+                                                    | [] ->
+                                                      (match l' with
+                                                       | [] ->
+                                                         unassigned_reads vp
+                                                           a x
+                                                       | _ :: _ ->
+                                                         app
+                                                           (unassigned_reads
+                                                             vp a x) 
+                                                           (go l' a))
+                                                    | lhs :: l4 ->
+                                                      (match l4 with
+                                                       | [] ->
+                                                         (match l' with
+                                                          | [] ->
+                                                            unassigned_reads
+                                                              vp a x
+                                                          | _ :: _ ->
+                                                            app
+                                                              (unassigned_reads
+                                                                vp a x)
+                                                              (go l' a))
+                                                       | rhs :: l5 ->
+                                                         (match l5 with
+                                                          | [] ->
+                                                            (match l' with
+                                                             | [] ->
+                                                               unassigned_reads
+                                                                 vp a x
+                                                             | _ :: _ ->
+                                                               app
+                                                                 (unassigned_reads
+                                                                   vp a rhs)
+                                                                 (go l'
+                                                                   (match 
+                                                                    ident_sym
+                                                                    lhs with
+                                                                    | Some t3 ->
+                                                                    t3 :: a
+                                                                    | None ->
+                                                                    a)))
+                                                          | _ :: _ ->
+                                                            (match l' with
+                                                             | [] ->
+                                                               unassigned_reads
+                                                                 vp a x
+                                                             | _ :: _ ->
+                                                               app
+                                                                 (unassigned_reads
+                                                                   vp a x)
+                                                                 (go l' a))))))
+                                              | _ ->
+                                                (match l' with
+                                                 | [] ->
+                                                   unassigned_reads vp a x
+                                                 | _ :: _ ->
+                                                   app
+                                                     (unassigned_reads vp a x)
+                                                     (go l' a)))
+                                           | _ ->
+                                             (match l' with
+                                              | [] -> unassigned_reads vp a x
+                                              | _ :: _ ->
+                                                app (unassigned_reads vp a x)
+                                                  (go l' a)))
+                                      in go es assigned)
+                                 | None -> kids assigned es)
+                              | _ :: _ -> kids assigned cs)
+                           | _ :: _ -> kids assigned cs)
+                        | _ -> kids assigned cs))
+                  | _ -> kids assigned cs)
+               | _ -> kids assigned cs))
+         | _ -> kids assigned cs)
+      | _ -> kids assigned cs))
+
+(** val user_idents : char list -> node -> char list list **)
+
+let rec user_idents vp n0 =
+  match reserved_ident vp n0 with
+  | Some p -> let (name, b) = p in if b then [] else name :: []
+  | None ->
+    let Node (_, cs) = n0 in
+    let rec go = function
+    | [] -> []
+    | c :: l' -> app (user_idents vp c) (go l')
+    in go cs
+
+(** val block_let_names : char list -> node -> char list list **)
+
+let block_let_names vp = function
+| Node (t, cs) ->
+  (match t with
+   | K (k, _, _) ->
+     (match k with
+      | KBlock ->
+        (match cs with
+         | [] -> []
+         | _ :: l ->
+           (match l with
+            | [] -> []
+            | n0 :: l0 ->
+              let Node (t0, stmts) = n0 in
+              (match t0 with
+               | Lst ->
+                 (match l0 with
+                  | [] -> let_names vp stmts
+                  | _ :: _ -> [])
+               | _ -> [])))
+      | _ -> [])
+   | _ -> [])
+
+(** val clash_between : char list -> node list -> node -> issue list **)
+
+let clash_between vp scope body =
+  let d = block_let_names vp body in
+  (match d with
+   | [] -> []
+   | _ :: _ ->
+     map (fun x ->
+       (('u'::('s'::('e'::('r'::('-'::('c'::('l'::('a'::('s'::('h'::[])))))))))),
+       x))
+       (filter (fun x -> mem_str0 x d)
+         (flat_map (user_idents vp) (body :: scope))))
+
+(** val clashes : char list -> node -> issue list **)
+
+let rec clashes vp n0 =
+  app
+    (let Node (t, cs) = n0 in
+     (match t with
+      | K (k, _, _) ->
+        (match k with
+         | KBlock -> clash_between vp [] n0
+         | KArrow ->
+           (match cs with
+            | [] -> []
+            | _ :: l ->
+              (match l with
+               | [] -> []
+               | params :: l0 ->
+                 (match l0 with
+                  | [] -> []
+                  | body :: l1 ->
+                    (match l1 with
+                     | [] -> []
+                     | _ :: l2 ->
+                       (match l2 with
+                        | [] -> []
+                        | _ :: l3 ->
+                          (match l3 with
+                           | [] -> []
+                           | _ :: l4 ->
+                             (match l4 with
+                              | [] -> []
+                              | _ :: l5 ->
+                                (match l5 with
+                                 | [] -> clash_between vp (params :: []) body
+                                 | _ :: _ -> []))))))))
+         | KFnDecl ->
+           (match cs with
+            | [] -> []
+            | _ :: l ->
+              (match l with
+               | [] -> []
+               | _ :: l0 ->
+                 (match l0 with
+                  | [] -> []
+                  | params :: l1 ->
+                    (match l1 with
+                     | [] -> []
+                     | _ :: l2 ->
+                       (match l2 with
+                        | [] -> []
+                        | _ :: l3 ->
+                          (match l3 with
+                           | [] -> []
+                           | body :: l4 ->
+                             (match l4 with
+                              | [] -> []
+                              | _ :: l5 ->
+                                (match l5 with
+                                 | [] -> []
+                                 | _ :: l6 ->
+                                   (match l6 with
+                                    | [] -> []
+                                    | _ :: l7 ->
+                                      (match l7 with
+                                       | [] -> []
+                                       | _ :: l8 ->
+                                         (match l8 with
+                                          | [] ->
+                                            clash_between vp (params :: [])
+                                              body
+                                          | _ :: _ -> [])))))))))))
+         | KFnExpr ->
+           (match cs with
+            | [] -> []
+            | _ :: l ->
+              (match l with
+               | [] -> []
+               | params :: l0 ->
+                 (match l0 with
+                  | [] -> []
+                  | _ :: l1 ->
+                    (match l1 with
+                     | [] -> []
+                     | _ :: l2 ->
+                       (match l2 with
+                        | [] -> []
+                        | body :: l3 ->
+                          (match l3 with
+                           | [] -> []
+                           | _ :: l4 ->
+                             (match l4 with
+                              | [] -> []
+                              | _ :: l5 ->
+                                (match l5 with
+                                 | [] -> []
+                                 | _ :: l6 ->
+                                   (match l6 with
+                                    | [] -> []
+                                    | _ :: l7 ->
+                                      (match l7 with
+                                       | [] ->
+                                         clash_between vp (params :: []) body
+                                       | _ :: _ -> []))))))))))
+         | KClassMethod ->
+           (match cs with
+            | [] -> []
+            | _ :: l ->
+              (match l with
+               | [] -> []
+               | n1 :: _ ->
+                 let Node (t0, cs0) = n1 in
+                 (match t0 with
+                  | Obj ->
+                    (match cs0 with
+                     | [] -> []
+                     | params :: l1 ->
+                       (match l1 with
+                        | [] -> []
+                        | _ :: l2 ->
+                          (match l2 with
+                           | [] -> []
+                           | _ :: l3 ->
+                             (match l3 with
+                              | [] -> []
+                              | _ :: l4 ->
+                                (match l4 with
+                                 | [] -> []
+                                 | body :: _ ->
+                                   clash_between vp (params :: []) body)))))
+                  | _ -> [])))
+         | KPrivateMethod ->
+           (match cs with
+            | [] -> []
+            | _ :: l ->
+              (match l with
+               | [] -> []
+               | _ :: l0 ->
+                 (match l0 with
+                  | [] -> []
+                  | n2 :: _ ->
+                    let Node (t0, cs0) = n2 in
+                    (match t0 with
+                     | Obj ->
+                       (match cs0 with
+                        | [] -> []
+                        | params :: l2 ->
+                          (match l2 with
+                           | [] -> []
+                           | _ :: l3 ->
+                             (match l3 with
+                              | [] -> []
+                              | _ :: l4 ->
+                                (match l4 with
+                                 | [] -> []
+                                 | _ :: l5 ->
+                                   (match l5 with
+                                    | [] -> []
+                                    | body :: _ ->
+                                      clash_between vp (params :: []) body)))))
+                     | _ -> []))))
+         | KConstructor ->
+           (match cs with
+            | [] -> []
+            | _ :: l ->
+              (match l with
+               | [] -> []
+               | _ :: l0 ->
+                 (match l0 with
+                  | [] -> []
+                  | params :: l1 ->
+                    (match l1 with
+                     | [] -> []
+                     | body :: l2 ->
+                       (match l2 with
+                        | [] -> []
+                        | _ :: l3 ->
+                          (match l3 with
+                           | [] -> []
+                           | _ :: l4 ->
+                             (match l4 with
+                              | [] -> clash_between vp (params :: []) body
+                              | _ :: _ -> [])))))))
+         | KMethodProp ->
+           (match cs with
+            | [] -> []
+            | _ :: l ->
+              (match l with
+               | [] -> []
+               | params :: l0 ->
+                 (match l0 with
+                  | [] -> []
+                  | _ :: l1 ->
+                    (match l1 with
+                     | [] -> []
+                     | _ :: l2 ->
+                       (match l2 with
+                        | [] -> []
+                        | body :: _ -> clash_between vp (params :: []) body)))))
+         | KSetterProp ->
+           (match cs with
+            | [] -> []
+            | _ :: l ->
+              (match l with
+               | [] -> []
+               | _ :: l0 ->
+                 (match l0 with
+                  | [] -> []
+                  | param :: l1 ->
+                    (match l1 with
+                     | [] -> []
+                     | body :: l2 ->
+                       (match l2 with
+                        | [] -> clash_between vp (param :: []) body
+                        | _ :: _ -> [])))))
+         | KCatch ->
+           (match cs with
+            | [] -> []
+            | param :: l ->
+              (match l with
+               | [] -> []
+               | body :: l0 ->
+                 (match l0 with
+                  | [] -> clash_between vp (param :: []) body
+                  | _ :: _ -> [])))
+         | _ -> [])
+      | _ -> []))
+    (let Node (_, cs) = n0 in
+     let rec go = function
+     | [] -> []
+     | c :: l' -> app (clashes vp c) (go l')
+     in go cs)
+
+(** val hygiene_issues : char list -> node -> issue list **)
+
+let hygiene_issues vp out =
+  app
+    (hyg vp { h_decl = None; h_crossed = false; h_assigned = []; h_live =
+      [] } out) (app (unassigned_reads vp [] out) (clashes vp out))
+
+type expected =
+| Exact of node
+| OmittedSum of node
+| Hole
+| Unspread of node
+
+(** val is_plus : node -> bool **)
+
+let is_plus = function
+| Node (t, cs) ->
+  (match t with
+   | K (k, _, _) ->
+     (match k with
+      | KBin ->
+        (match cs with
+         | [] -> false
+         | n0 :: _ ->
+           let Node (t0, cs0) = n0 in
+           (match t0 with
+            | Str s ->
+              (match s with
+               | [] -> false
+               | a::s0 ->
+                 (* If this appears, you're using Ascii internals. Please don't *)
+ (fun f c ->
+  let n = Char.code c in
+  let h i = (n land (1 lsl i)) <> 0 in
+  f (h 0) (h 1) (h 2) (h 3) (h 4) (h 5) (h 6) (h 7))
+                   (fun b b0 b1 b2 b3 b4 b5 b6 ->
+                   if b
+                   then if b0
+                        then if b1
+                             then false
+                             else if b2
+                                  then if b3
+                                       then false
+                                       else if b4
+                                            then if b5
+                                                 then false
+                                                 else if b6
+                                                      then false
+                                                      else (match s0 with
+                                                            | [] ->
+                                                              (match cs0 with
+                                                               | [] -> true
+                                                               | _ :: _ ->
+                                                                 false)
+                                                            | _::_ -> false)
+                                            else false
+                                  else false
+                        else false
+                   else false)
+                   a)
+            | _ -> false))
+      | _ -> false)
+   | _ -> false)
+
+(** val expect_operand : node -> expected **)
+
+let expect_operand arg = match arg with
+| Node (t, cs) ->
+  (match t with
+   | Obj ->
+     (match cs with
+      | [] -> Exact arg
+      | _ :: l ->
+        (match l with
+         | [] -> Exact arg
+         | e :: l0 ->
+           (match l0 with
+            | [] -> if is_plus e then OmittedSum e else Exact arg
+            | _ :: _ -> Exact arg)))
+   | Nul -> Hole
+   | _ -> Exact arg)
+
+(** val expected_of_operation : node -> expected list option **)
+
+let expected_of_operation = function
+| Node (t, cs) ->
+  (match t with
+   | K (k, lo, hi) ->
+     (match k with
+      | KBin ->
+        (match cs with
+         | [] -> None
+         | n0 :: l0 ->
+           let Node (t0, cs0) = n0 in
+           (match t0 with
+            | Str s ->
+              (match s with
+               | [] -> None
+               | a::s0 ->
+                 (* If this appears, you're using Ascii internals. Please don't *)
+ (fun f c ->
+  let n = Char.code c in
+  let h i = (n land (1 lsl i)) <> 0 in
+  f (h 0) (h 1) (h 2) (h 3) (h 4) (h 5) (h 6) (h 7))
+                   (fun b b0 b1 b2 b3 b4 b5 b6 ->
+                   if b
+                   then if b0
+                        then if b1
+                             then None
+                             else if b2
+                                  then if b3
+                                       then None
+                                       else if b4
+                                            then if b5
+                                                 then None
+                                                 else if b6
+                                                      then None
+                                                      else (match s0 with
+                                                            | [] ->
+                                                              (match cs0 with
+                                                               | [] ->
+                                                                 (match l0 with
+                                                                  | [] -> None
+                                                                  | l :: l1 ->
+                                                                    (match l1 with
+                                                                    | [] ->
+                                                                    None
+                                                                    | r :: l2 ->
+                                                                    (match l2 with
+                                                                    | [] ->
+                                                                    Some
+                                                                    ((expect_operand
+                                                                    (mk_arg l)) :: (
+                                                                    (expect_operand
+                                                                    (mk_arg r)) :: []))
+                                                                    | _ :: _ ->
+                                                                    None)))
+                                                               | _ :: _ ->
+                                                                 None)
+                                                            | _::_ -> None)
+                                            else None
+                                  else None
+                        else None
+                   else None)
+                   a)
+            | _ -> None))
+      | KTpl ->
+        (match cs with
+         | [] -> None
+         | n0 :: l ->
+           let Node (t0, es) = n0 in
+           (match t0 with
+            | Lst ->
+              (match l with
+               | [] -> None
+               | _ :: l0 ->
+                 (match l0 with
+                  | [] -> Some (map (fun e -> expect_operand (mk_arg e)) es)
+                  | _ :: _ -> None))
+            | _ -> None))
+      | KCall ->
+        (match cs with
+         | [] -> None
+         | _ :: l ->
+           (match l with
+            | [] -> None
+            | f :: l0 ->
+              let Node (t0, cs0) = f in
+              (match t0 with
+               | K (k0, _, _) ->
+                 (match k0 with
+                  | KMember ->
+                    (match cs0 with
+                     | [] ->
+                       (match l0 with
+                        | [] -> None
+                        | n0 :: l1 ->
+                          let Node (t1, args) = n0 in
+                          (match t1 with
+                           | Lst ->
+                             (match l1 with
+                              | [] -> None
+                              | _ :: l2 ->
+                                (match l2 with
+                                 | [] ->
+                                   if is_ident f
+                                   then Some ((Exact (mk_arg f)) :: ((Exact
+                                          (mk_arg
+                                            (mk_ident (lo, hi)
+                                              ('u'::('n'::('d'::('e'::('f'::('i'::('n'::('e'::('d'::[])))))))))))) :: 
+                                          (map expect_operand args)))
+                                   else None
+                                 | _ :: _ -> None))
+                           | _ -> None))
+                     | f0 :: l1 ->
+                       (match l1 with
+                        | [] ->
+                          (match l0 with
+                           | [] -> None
+                           | n0 :: l2 ->
+                             let Node (t1, args) = n0 in
+                             (match t1 with
+                              | Lst ->
+                                (match l2 with
+                                 | [] -> None
+                                 | _ :: l3 ->
+                                   (match l3 with
+                                    | [] ->
+                                      if is_ident f
+                                      then Some ((Exact
+                                             (mk_arg f)) :: ((Exact
+                                             (mk_arg
+                                               (mk_ident (lo, hi)
+                                                 ('u'::('n'::('d'::('e'::('f'::('i'::('n'::('e'::('d'::[])))))))))))) :: 
+                                             (map expect_operand args)))
+                                      else None
+                                    | _ :: _ -> None))
+                              | _ -> None))
+                        | prop :: l2 ->
+                          (match l2 with
+                           | [] ->
+                             (match l0 with
+                              | [] -> None
+                              | n0 :: l3 ->
+                                let Node (t1, args) = n0 in
+                                (match t1 with
+                                 | Lst ->
+                                   (match l3 with
+                                    | [] -> None
+                                    | _ :: l4 ->
+                                      (match l4 with
+                                       | [] ->
+                                         (match ident_name_sym prop with
+                                          | Some s ->
+                                            (match s with
+                                             | [] -> None
+                                             | a::s0 ->
+                                               (* If this appears, you're using Ascii internals. Please don't *)
+ (fun f c ->
+  let n = Char.code c in
+  let h i = (n land (1 lsl i)) <> 0 in
+  f (h 0) (h 1) (h 2) (h 3) (h 4) (h 5) (h 6) (h 7))
+                                                 (fun b b0 b1 b2 b3 b4 b5 b6 ->
+                                                 if b
+                                                 then if b0
+                                                      then if b1
+                                                           then None
+                                                           else if b2
+                                                                then None
+                                                                else 
+                                                                  if b3
+                                                                  then None
+                                                                  else 
+                                                                    if b4
+                                                                    then 
+                                                                    if b5
+                                                                    then 
+                                                                    if b6
+                                                                    then None
+                                                                    else 
+                                                                    (match s0 with
+                                                                    | [] ->
+                                                                    None
+                                                                    | a0::s1 ->
+                                                                    (* If this appears, you're using Ascii internals. Please don't *)
+ (fun f c ->
+  let n = Char.code c in
+  let h i = (n land (1 lsl i)) <> 0 in
+  f (h 0) (h 1) (h 2) (h 3) (h 4) (h 5) (h 6) (h 7))
+                                                                    (fun b7 b8 b9 b10 b11 b12 b13 b14 ->
+                                                                    if b7
+                                                                    then 
+                                                                    if b8
+                                                                    then None
+                                                                    else 
+                                                                    if b9
+                                                                    then None
+                                                                    else 
+                                                                    if b10
+                                                                    then None
+                                                                    else 
+                                                                    if b11
+                                                                    then None
+                                                                    else 
+                                                                    if b12
+                                                                    then 
+                                                                    if b13
+                                                                    then 
+                                                                    if b14
+                                                                    then None
+                                                                    else 
+                                                                    (match s1 with
+                                                                    | [] ->
+                                                                    None
+                                                                    | a1::s2 ->
+                                                                    (* If this appears, you're using Ascii internals. Please don't *)
+ (fun f c ->
+  let n = Char.code c in
+  let h i = (n land (1 lsl i)) <> 0 in
+  f (h 0) (h 1) (h 2) (h 3) (h 4) (h 5) (h 6) (h 7))
+                                                                    (fun b15 b16 b17 b18 b19 b20 b21 b22 ->
+                                                                    if b15
+                                                                    then None
+                                                                    else 
+                                                                    if b16
+                                                                    then None
+                                                                    else 
+                                                                    if b17
+                                                                    then 
+                                                                    if b18
+                                                                    then 
+                                                                    if b19
+                                                                    then None
+                                                                    else 
+                                                                    if b20
+                                                                    then 
+                                                                    if b21
+                                                                    then 
+                                                                    if b22
+                                                                    then None
+                                                                    else 
+                                                                    (match s2 with
+                                                                    | [] ->
+                                                                    None
+                                                                    | a2::s3 ->
+                                                                    (* If this appears, you're using Ascii internals. Please don't *)
+ (fun f c ->
+  let n = Char.code c in
+  let h i = (n land (1 lsl i)) <> 0 in
+  f (h 0) (h 1) (h 2) (h 3) (h 4) (h 5) (h 6) (h 7))
+                                                                    (fun b23 b24 b25 b26 b27 b28 b29 b30 ->
+                                                                    if b23
+                                                                    then None
+                                                                    else 
+                                                                    if b24
+                                                                    then None
+                                                                    else 
+                                                                    if b25
+                                                                    then 
+                                                                    if b26
+                                                                    then 
+                                                                    if b27
+                                                                    then None
+                                                                    else 
+                                                                    if b28
+                                                                    then 
+                                                                    if b29
+                                                                    then 
+                                                                    if b30
+                                                                    then None
+                                                                    else 
+                                                                    (match s3 with
+                                                                    | [] ->
+                                                                    (match args with
+                                                                    | [] ->
+                                                                    None
+                                                                    | this :: rest ->
+                                                                    if 
+                                                                    arg_is_spread
+                                                                    this
+                                                                    then 
+                                                                    Some
+                                                                    ((Exact
+                                                                    (mk_arg
+                                                                    f0)) :: 
+                                                                    (map
+                                                                    expect_operand
+                                                                    args))
+                                                                    else 
+                                                                    Some
+                                                                    ((Exact
+                                                                    (mk_arg
+                                                                    f0)) :: ((Exact
+                                                                    this) :: 
+                                                                    (map
+                                                                    expect_operand
+                                                                    rest))))
+                                                                    | _::_ ->
+                                                                    None)
+                                                                    else None
+                                                                    else None
+                                                                    else None
+                                                                    else None)
+                                                                    a2)
+                                                                    else None
+                                                                    else None
+                                                                    else None
+                                                                    else None)
+                                                                    a1)
+                                                                    else None
+                                                                    else None
+                                                                    else None)
+                                                                    a0)
+                                                                    else None
+                                                                    else None
+                                                      else if b1
+                                                           then None
+                                                           else if b2
+                                                                then None
+                                                                else 
+                                                                  if b3
+                                                                  then None
+                                                                  else 
+                                                                    if b4
+                                                                    then 
+                                                                    if b5
+                                                                    then 
+                                                                    if b6
+                                                                    then None
+                                                                    else 
+                                                                    (match s0 with
+                                                                    | [] ->
+                                                                    None
+                                                                    | a0::s1 ->
+                                                                    (* If this appears, you're using Ascii internals. Please don't *)
+ (fun f c ->
+  let n = Char.code c in
+  let h i = (n land (1 lsl i)) <> 0 in
+  f (h 0) (h 1) (h 2) (h 3) (h 4) (h 5) (h 6) (h 7))
+                                                                    (fun b7 b8 b9 b10 b11 b12 b13 b14 ->
+                                                                    if b7
+                                                                    then None
+                                                                    else 
+                                                                    if b8
+                                                                    then None
+                                                                    else 
+                                                                    if b9
+                                                                    then None
+                                                                    else 
+                                                                    if b10
+                                                                    then None
+                                                                    else 
+                                                                    if b11
+                                                                    then 
+                                                                    if b12
+                                                                    then 
+                                                                    if b13
+                                                                    then 
+                                                                    if b14
+                                                                    then None
+                                                                    else 
+                                                                    (match s1 with
+                                                                    | [] ->
+                                                                    None
+                                                                    | a1::s2 ->
+                                                                    (* If this appears, you're using Ascii internals. Please don't *)
+ (fun f c ->
+  let n = Char.code c in
+  let h i = (n land (1 lsl i)) <> 0 in
+  f (h 0) (h 1) (h 2) (h 3) (h 4) (h 5) (h 6) (h 7))
+                                                                    (fun b15 b16 b17 b18 b19 b20 b21 b22 ->
+                                                                    if b15
+                                                                    then None
+                                                                    else 
+                                                                    if b16
+                                                                    then None
+                                                                    else 
+                                                                    if b17
+                                                                    then None
+                                                                    else 
+                                                                    if b18
+                                                                    then None
+                                                                    else 
+                                                                    if b19
+                                                                    then 
+                                                                    if b20
+                                                                    then 
+                                                                    if b21
+                                                                    then 
+                                                                    if b22
+                                                                    then None
+                                                                    else 
+                                                                    (match s2 with
+                                                                    | [] ->
+                                                                    None
+                                                                    | a2::s3 ->
+                                                                    (* If this appears, you're using Ascii internals. Please don't *)
+ (fun f c ->
+  let n = Char.code c in
+  let h i = (n land (1 lsl i)) <> 0 in
+  f (h 0) (h 1) (h 2) (h 3) (h 4) (h 5) (h 6) (h 7))
+                                                                    (fun b23 b24 b25 b26 b27 b28 b29 b30 ->
+                                                                    if b23
+                                                                    then None
+                                                                    else 
+                                                                    if b24
+                                                                    then None
+                                                                    else 
+                                                                    if b25
+                                                                    then 
+                                                                    if b26
+                                                                    then 
+                                                                    if b27
+                                                                    then None
+                                                                    else 
+                                                                    if b28
+                                                                    then 
+                                                                    if b29
+                                                                    then 
+                                                                    if b30
+                                                                    then None
+                                                                    else 
+                                                                    (match s3 with
+                                                                    | [] ->
+                                                                    None
+                                                                    | a3::s4 ->
+                                                                    (* If this appears, you're using Ascii internals. Please don't *)
+ (fun f c ->
+  let n = Char.code c in
+  let h i = (n land (1 lsl i)) <> 0 in
+  f (h 0) (h 1) (h 2) (h 3) (h 4) (h 5) (h 6) (h 7))
+                                                                    (fun b31 b32 b33 b34 b35 b36 b37 b38 ->
+                                                                    if b31
+                                                                    then 
+                                                                    if b32
+                                                                    then None
+                                                                    else 
+                                                                    if b33
+                                                                    then None
+                                                                    else 
+                                                                    if b34
+                                                                    then 
+                                                                    if b35
+                                                                    then 
+                                                                    if b36
+                                                                    then 
+                                                                    if b37
+                                                                    then 
+                                                                    if b38
+                                                                    then None
+                                                                    else 
+                                                                    (match s4 with
+                                                                    | [] ->
+                                                                    (match args with
+                                                                    | [] ->
+                                                                    None
+                                                                    | this :: rest ->
+                                                                    if 
+                                                                    arg_is_spread
+                                                                    this
+                                                                    then 
+                                                                    Some
+                                                                    ((Exact
+                                                                    (mk_arg
+                                                                    f0)) :: 
+                                                                    (map
+                                                                    expect_operand
+                                                                    args))
+                                                                    else 
+                                                                    Some
+                                                                    ((Exact
+                                                                    (mk_arg
+                                                                    f0)) :: ((Exact
+                                                                    this) :: 
+                                                                    (flat_map
+                                                                    (fun a4 ->
+                                                                    let Node (
+                                                                    t2, cs1) =
+                                                                    a4
+                                                                    in
+                                                                    (
+                                                                    match t2 with
+                                                                    | Obj ->
+                                                                    (match cs1 with
+                                                                    | [] ->
+                                                                    (expect_operand
+                                                                    a4) :: []
+                                                                    | n1 :: l5 ->
+                                                                    let Node (
+                                                                    t3, cs2) =
+                                                                    n1
+                                                                    in
+                                                                    (
+                                                                    match t3 with
+                                                                    | Nul ->
+                                                                    (match cs2 with
+                                                                    | [] ->
+                                                                    (match l5 with
+                                                                    | [] ->
+                                                                    (expect_operand
+                                                                    a4) :: []
+                                                                    | n2 :: l6 ->
+                                                                    let Node (
+                                                                    t4, cs3) =
+                                                                    n2
+                                                                    in
+                                                                    (
+                                                                    match t4 with
+                                                                    | K (
+                                                                    k1, _, _) ->
+                                                                    (match k1 with
+                                                                    | KArray ->
+                                                                    (match cs3 with
+                                                                    | [] ->
+                                                                    (expect_operand
+                                                                    a4) :: []
+                                                                    | n3 :: l7 ->
+                                                                    let Node (
+                                                                    t5, elems) =
+                                                                    n3
+                                                                    in
+                                                                    (
+                                                                    match t5 with
+                                                                    | Lst ->
+                                                                    (match l7 with
+                                                                    | [] ->
+                                                                    (match l6 with
+                                                                    | [] ->
+                                                                    map
+                                                                    expect_operand
+                                                                    elems
+                                                                    | _ :: _ ->
+                                                                    (expect_operand
+                                                                    a4) :: [])
+                                                                    | _ :: _ ->
+                                                                    (expect_operand
+                                                                    a4) :: [])
+                                                                    | _ ->
+                                                                    (expect_operand
+                                                                    a4) :: []))
+                                                                    | _ ->
+                                                                    (expect_operand
+                                                                    a4) :: [])
+                                                                    | _ ->
+                                                                    (expect_operand
+                                                                    a4) :: []))
+                                                                    | _ :: _ ->
+                                                                    (expect_operand
+                                                                    a4) :: [])
+                                                                    | _ ->
+                                                                    (expect_operand
+                                                                    a4) :: []))
+                                                                    | _ ->
+                                                                    (expect_operand
+                                                                    a4) :: []))
+                                                                    rest))))
+                                                                    | _::_ ->
+                                                                    None)
+                                                                    else None
+                                                                    else None
+                                                                    else None
+                                                                    else None
+                                                                    else None)
+                                                                    a3)
+                                                                    else None
+                                                                    else None
+                                                                    else None
+                                                                    else None)
+                                                                    a2)
+                                                                    else None
+                                                                    else None
+                                                                    else None)
+                                                                    a1)
+                                                                    else None
+                                                                    else None
+                                                                    else None)
+                                                                    a0)
+                                                                    else None
+                                                                    else None
+                                                 else None)
+                                                 a)
+                                          | None -> None)
+                                       | _ :: _ -> None))
+                                 | _ -> None))
+                           | _ :: _ ->
+                             (match l0 with
+                              | [] -> None
+                              | n1 :: l4 ->
+                                let Node (t1, args) = n1 in
+                                (match t1 with
+                                 | Lst ->
+                                   (match l4 with
+                                    | [] -> None
+                                    | _ :: l5 ->
+                                      (match l5 with
+                                       | [] ->
+                                         if is_ident f
+                                         then Some ((Exact
+                                                (mk_arg f)) :: ((Exact
+                                                (mk_arg
+                                                  (mk_ident (lo, hi)
+                                                    ('u'::('n'::('d'::('e'::('f'::('i'::('n'::('e'::('d'::[])))))))))))) :: 
+                                                (map expect_operand args)))
+                                         else None
+                                       | _ :: _ -> None))
+                                 | _ -> None)))))
+                  | _ ->
+                    (match l0 with
+                     | [] -> None
+                     | n0 :: l1 ->
+                       let Node (t1, args) = n0 in
+                       (match t1 with
+                        | Lst ->
+                          (match l1 with
+                           | [] -> None
+                           | _ :: l2 ->
+                             (match l2 with
+                              | [] ->
+                                if is_ident f
+                                then Some ((Exact (mk_arg f)) :: ((Exact
+                                       (mk_arg
+                                         (mk_ident (lo, hi)
+                                           ('u'::('n'::('d'::('e'::('f'::('i'::('n'::('e'::('d'::[])))))))))))) :: 
+                                       (map expect_operand args)))
+                                else None
+                              | _ :: _ -> None))
+                        | _ -> None)))
+               | _ ->
+                 (match l0 with
+                  | [] -> None
+                  | n0 :: l1 ->
+                    let Node (t1, args) = n0 in
+                    (match t1 with
+                     | Lst ->
+                       (match l1 with
+                        | [] -> None
+                        | _ :: l2 ->
+                          (match l2 with
+                           | [] ->
+                             if is_ident f
+                             then Some ((Exact (mk_arg f)) :: ((Exact
+                                    (mk_arg
+                                      (mk_ident (lo, hi)
+                                        ('u'::('n'::('d'::('e'::('f'::('i'::('n'::('e'::('d'::[])))))))))))) :: 
+                                    (map expect_operand args)))
+                             else None
+                           | _ :: _ -> None))
+                     | _ -> None)))))
+      | _ -> None)
+   | _ -> None)
+
+(** val simple_arg : char list -> node -> bool **)
+
+let simple_arg _ a =
+  match arg_expr a with
+  | Some e -> (||) (is_lit e) (is_ident e)
+  | None -> false
+
+(** val match_args :
+    char list -> expected list -> node list -> char list list **)
+
+let rec match_args vp ex actual =
+  match ex with
+  | [] ->
+    (match actual with
+     | [] -> []
+     | _ :: _ ->
+       ('e'::('x'::('t'::('r'::('a'::('-'::('a'::('r'::('g'::('u'::('m'::('e'::('n'::('t'::[])))))))))))))) :: [])
+  | e0 :: ex' ->
+    (match e0 with
+     | Exact a ->
+       (match actual with
+        | [] ->
+          ('m'::('i'::('s'::('s'::('i'::('n'::('g'::('-'::('a'::('r'::('g'::('u'::('m'::('e'::('n'::('t'::[])))))))))))))))) :: []
+        | b :: actual' ->
+          app
+            (if (&&) (eqb0 (arg_is_spread a) (arg_is_spread b))
+                  (match arg_expr a with
+                   | Some x ->
+                     (match arg_expr b with
+                      | Some y -> node_eqb x y
+                      | None -> false)
+                   | None -> false)
+             then []
+             else ('d'::('i'::('f'::('f'::('e'::('r'::('e'::('n'::('t'::('-'::('a'::('r'::('g'::('u'::('m'::('e'::('n'::('t'::[])))))))))))))))))) :: [])
+            (app
+              (if simple_arg vp b
+               then []
+               else ('c'::('o'::('m'::('p'::('l'::('e'::('x'::('-'::('a'::('r'::('g'::('u'::('m'::('e'::('n'::('t'::[])))))))))))))))) :: [])
+              (match_args vp ex' actual')))
+     | OmittedSum _ ->
+       ('s'::('u'::('m'::('-'::('o'::('p'::('e'::('r'::('a'::('n'::('d'::('-'::('o'::('m'::('i'::('t'::('t'::('e'::('d'::[]))))))))))))))))))) :: 
+         (match_args vp ex' actual)
+     | Hole ->
+       ('a'::('p'::('p'::('l'::('y'::('-'::('h'::('o'::('l'::('e'::('-'::('d'::('r'::('o'::('p'::('p'::('e'::('d'::[])))))))))))))))))) :: 
+         (match_args vp ex' actual)
+     | Unspread e ->
+       (match actual with
+        | [] ->
+          ('m'::('i'::('s'::('s'::('i'::('n'::('g'::('-'::('a'::('r'::('g'::('u'::('m'::('e'::('n'::('t'::[])))))))))))))))) :: []
+        | b :: actual' ->
+          app
+            (match arg_expr b with
+             | Some e' ->
+               if (&&) (node_eqb e e') (negb (arg_is_spread b))
+               then ('s'::('p'::('r'::('e'::('a'::('d'::('-'::('l'::('i'::('t'::('e'::('r'::('a'::('l'::('-'::('u'::('n'::('s'::('p'::('r'::('e'::('a'::('d'::[]))))))))))))))))))))))) :: []
+               else ('d'::('i'::('f'::('f'::('e'::('r'::('e'::('n'::('t'::('-'::('a'::('r'::('g'::('u'::('m'::('e'::('n'::('t'::[])))))))))))))))))) :: []
+             | None ->
+               ('d'::('i'::('f'::('f'::('e'::('r'::('e'::('n'::('t'::('-'::('a'::('r'::('g'::('u'::('m'::('e'::('n'::('t'::[])))))))))))))))))) :: [])
+            (match_args vp ex' actual')))
+
+(** val apply_spread_args : node -> bool **)
+
+let apply_spread_args = function
+| Node (t, cs) ->
+  (match t with
+   | K (k, _, _) ->
+     (match k with
+      | KCall ->
+        (match cs with
+         | [] -> false
+         | _ :: l ->
+           (match l with
+            | [] -> false
+            | n0 :: l0 ->
+              let Node (t0, cs0) = n0 in
+              (match t0 with
+               | K (k0, _, _) ->
+                 (match k0 with
+                  | KMember ->
+                    (match cs0 with
+                     | [] -> false
+                     | _ :: l1 ->
+                       (match l1 with
+                        | [] -> false
+                        | prop :: l2 ->
+                          (match l2 with
+                           | [] ->
+                             (match l0 with
+                              | [] -> false
+                              | n2 :: l3 ->
+                                let Node (t1, cs1) = n2 in
+                                (match t1 with
+                                 | Lst ->
+                                   (match cs1 with
+                                    | [] -> false
+                                    | this :: l4 ->
+                                      (match l4 with
+                                       | [] -> false
+                                       | second :: _ ->
+                                         (match l3 with
+                                          | [] -> false
+                                          | _ :: l6 ->
+                                            (match l6 with
+                                             | [] ->
+                                               (match ident_name_sym prop with
+                                                | Some s ->
+                                                  (match s with
+                                                   | [] -> false
+                                                   | a::s0 ->
+                                                     (* If this appears, you're using Ascii internals. Please don't *)
+ (fun f c ->
+  let n = Char.code c in
+  let h i = (n land (1 lsl i)) <> 0 in
+  f (h 0) (h 1) (h 2) (h 3) (h 4) (h 5) (h 6) (h 7))
+                                                       (fun b b0 b1 b2 b3 b4 b5 b6 ->
+                                                       if b
+                                                       then if b0
+                                                            then false
+                                                            else if b1
+                                                                 then false
+                                                                 else 
+                                                                   if b2
+                                                                   then false
+                                                                   else 
+                                                                    if b3
+                                                                    then false
+                                                                    else 
+                                                                    if b4
+                                                                    then 
+                                                                    if b5
+                                                                    then 
+                                                                    if b6
+                                                                    then false
+                                                                    else 
+                                                                    (match s0 with
+                                                                    | [] ->
+                                                                    false
+                                                                    | a0::s1 ->
+                                                                    (* If this appears, you're using Ascii internals. Please don't *)
+ (fun f c ->
+  let n = Char.code c in
+  let h i = (n land (1 lsl i)) <> 0 in
+  f (h 0) (h 1) (h 2) (h 3) (h 4) (h 5) (h 6) (h 7))
+                                                                    (fun b7 b8 b9 b10 b11 b12 b13 b14 ->
+                                                                    if b7
+                                                                    then false
+                                                                    else 
+                                                                    if b8
+                                                                    then false
+                                                                    else 
+                                                                    if b9
+                                                                    then false
+                                                                    else 
+                                                                    if b10
+                                                                    then false
+                                                                    else 
+                                                                    if b11
+                                                                    then 
+                                                                    if b12
+                                                                    then 
+                                                                    if b13
+                                                                    then 
+                                                                    if b14
+                                                                    then false
+                                                                    else 
+                                                                    (match s1 with
+                                                                    | [] ->
+                                                                    false
+                                                                    | a1::s2 ->
+                                                                    (* If this appears, you're using Ascii internals. Please don't *)
+ (fun f c ->
+  let n = Char.code c in
+  let h i = (n land (1 lsl i)) <> 0 in
+  f (h 0) (h 1) (h 2) (h 3) (h 4) (h 5) (h 6) (h 7))
+                                                                    (fun b15 b16 b17 b18 b19 b20 b21 b22 ->
+                                                                    if b15
+                                                                    then false
+                                                                    else 
+                                                                    if b16
+                                                                    then false
+                                                                    else 
+                                                                    if b17
+                                                                    then false
+                                                                    else 
+                                                                    if b18
+                                                                    then false
+                                                                    else 
+                                                                    if b19
+                                                                    then 
+                                                                    if b20
+                                                                    then 
+                                                                    if b21
+                                                                    then 
+                                                                    if b22
+                                                                    then false
+                                                                    else 
+                                                                    (match s2 with
+                                                                    | [] ->
+                                                                    false
+                                                                    | a2::s3 ->
+                                                                    (* If this appears, you're using Ascii internals. Please don't *)
+ (fun f c ->
+  let n = Char.code c in
+  let h i = (n land (1 lsl i)) <> 0 in
+  f (h 0) (h 1) (h 2) (h 3) (h 4) (h 5) (h 6) (h 7))
+                                                                    (fun b23 b24 b25 b26 b27 b28 b29 b30 ->
+                                                                    if b23
+                                                                    then false
+                                                                    else 
+                                                                    if b24
+                                                                    then false
+                                                                    else 
+                                                                    if b25
+                                                                    then 
+                                                                    if b26
+                                                                    then 
+                                                                    if b27
+                                                                    then false
+                                                                    else 
+                                                                    if b28
+                                                                    then 
+                                                                    if b29
+                                                                    then 
+                                                                    if b30
+                                                                    then false
+                                                                    else 
+                                                                    (match s3 with
+                                                                    | [] ->
+                                                                    false
+                                                                    | a3::s4 ->
+                                                                    (* If this appears, you're using Ascii internals. Please don't *)
+ (fun f c ->
+  let n = Char.code c in
+  let h i = (n land (1 lsl i)) <> 0 in
+  f (h 0) (h 1) (h 2) (h 3) (h 4) (h 5) (h 6) (h 7))
+                                                                    (fun b31 b32 b33 b34 b35 b36 b37 b38 ->
+                                                                    if b31
+                                                                    then 
+                                                                    if b32
+                                                                    then false
+                                                                    else 
+                                                                    if b33
+                                                                    then false
+                                                                    else 
+                                                                    if b34
+                                                                    then 
+                                                                    if b35
+                                                                    then 
+                                                                    if b36
+                                                                    then 
+                                                                    if b37
+                                                                    then 
+                                                                    if b38
+                                                                    then false
+                                                                    else 
+                                                                    (match s4 with
+                                                                    | [] ->
+                                                                    (||)
+                                                                    (arg_is_spread
+                                                                    this)
+                                                                    (arg_is_spread
+                                                                    second)
+                                                                    | _::_ ->
+                                                                    false)
+                                                                    else false
+                                                                    else false
+                                                                    else false
+                                                                    else false
+                                                                    else false)
+                                                                    a3)
+                                                                    else false
+                                                                    else false
+                                                                    else false
+                                                                    else false)
+                                                                    a2)
+                                                                    else false
+                                                                    else false
+                                                                    else false)
+                                                                    a1)
+                                                                    else false
+                                                                    else false
+                                                                    else false)
+                                                                    a0)
+                                                                    else false
+                                                                    else false
+                                                       else false)
+                                                       a)
+                                                | None -> false)
+                                             | _ :: _ -> false))))
+                                 | _ -> false))
+                           | _ :: _ -> false)))
+                  | _ -> false)
+               | _ -> false)))
+      | _ -> false)
+   | _ -> false)
+
+(** val shape_issues : char list -> node -> char list list **)
+
+let rec shape_issues vp n0 =
+  app
+    (match hook_call n0 with
+     | Some p ->
+       let (_, l) = p in
+       (match l with
+        | [] ->
+          ('n'::('o'::('-'::('f'::('i'::('r'::('s'::('t'::('-'::('a'::('r'::('g'::('u'::('m'::('e'::('n'::('t'::[]))))))))))))))))) :: []
+        | a0 :: rest ->
+          (match arg_expr a0 with
+           | Some op ->
+             app
+               (if arg_is_spread a0
+                then ('s'::('p'::('r'::('e'::('a'::('d'::('-'::('r'::('e'::('s'::('u'::('l'::('t'::[]))))))))))))) :: []
+                else [])
+               (match expected_of_operation op with
+                | Some ex ->
+                  if apply_spread_args op
+                  then ('a'::('p'::('p'::('l'::('y'::('-'::('s'::('p'::('r'::('e'::('a'::('d'::('-'::('a'::('r'::('g'::('s'::[]))))))))))))))))) :: []
+                  else match_args vp ex rest
+                | None ->
+                  ('u'::('n'::('k'::('n'::('o'::('w'::('n'::('-'::('o'::('p'::('e'::('r'::('a'::('t'::('i'::('o'::('n'::[]))))))))))))))))) :: [])
+           | None ->
+             ('n'::('o'::('-'::('f'::('i'::('r'::('s'::('t'::('-'::('a'::('r'::('g'::('u'::('m'::('e'::('n'::('t'::[]))))))))))))))))) :: []))
+     | None -> [])
+    (let Node (_, cs) = n0 in
+     let rec go = function
+     | [] -> []
+     | c :: l' -> app (shape_issues vp c) (go l')
+     in go cs)
